@@ -55,6 +55,13 @@ pub fn extra_headers(key: &str) -> Vec<(String, String)> {
         "fwd-loop" => vec![h("Forwarded", "for=127.0.0.1")],
         "fwd-v6" => vec![h("Forwarded", "for=\"[::1]:4711\";proto=http")],
         "xri-loop" => vec![h("X-Real-IP", "127.0.0.1"), h("X-Forwarded-Host", "localhost"), h("X-Forwarded-Proto", "https")],
+        // an upload announcing a content coding (the protocol knows none)
+        "ce-gzip" => vec![h("Content-Encoding", "gzip")],
+        "ce-xgzip" => vec![h("Content-Encoding", "x-gzip")],
+        "ce-deflate" => vec![h("Content-Encoding", "deflate")],
+        "ce-identity" => vec![h("Content-Encoding", "identity")],
+        "ce-br" => vec![h("Content-Encoding", "br")],
+        "ce-zstd" => vec![h("Content-Encoding", "zstd")],
         "te" => vec![h("TE", "trailers"), h("Accept-Charset", "utf-16;q=1, *;q=0"), h("Accept-Language", "tlh")],
         other => panic!("bad extra header key {other}"),
     }
